@@ -764,3 +764,174 @@ def run_for(ctx, prop):
             compare(ctx, rule, fa, r['src'], module=r['module'], why=r['why'], normalize=r.get('normalize'))
         n += 1
     return n
+
+
+# -- more CLI references (C05 / C09 / C16 anchors) -------------------------------------------------------
+
+_reg('cooler.cli.cload.tabix', 'cooler.cli.cload',
+     'tabix loader: one-based unless --zero-based, field numbers - 1, ordered creation, ordered pool map', '''
+def ref(bins, pairs_path, cool_path, metadata, assembly, nproc, zero_based, max_split, **kwargs):
+    logger = get_logger(__name__)
+    chromsizes, bins = parse_bins(bins)
+    if metadata is not None:
+        with open(metadata) as f:
+            metadata = json.load(f)
+    try:
+        map_func = map
+        if nproc > 1:
+            pool = Pool(nproc)
+            map_func = pool.imap
+        opts = {}
+        if "chrom2" in kwargs:
+            opts["C2"] = kwargs["chrom2"] - 1
+        if "pos2" in kwargs:
+            opts["P2"] = kwargs["pos2"] - 1
+        iterator = TabixAggregator(pairs_path, chromsizes, bins, map=map_func, is_one_based=(not zero_based),
+                                   n_chunks=max_split, **opts)
+        create_cooler(cool_path, bins, iterator, metadata=metadata, assembly=assembly, ordered=True)
+    finally:
+        if nproc > 1:
+            pool.close()
+''')
+
+_reg('cooler.cli.cload.pairix', 'cooler.cli.cload',
+     'pairix loader: one-based unless --zero-based, ordered creation, ordered pool map', '''
+def ref(bins, pairs_path, cool_path, metadata, assembly, nproc, zero_based, max_split, block_char):
+    logger = get_logger(__name__)
+    chromsizes, bins = parse_bins(bins)
+    if metadata is not None:
+        with open(metadata) as f:
+            metadata = json.load(f)
+    try:
+        map_func = map
+        if nproc > 1:
+            pool = Pool(nproc)
+            map_func = pool.imap
+        iterator = PairixAggregator(pairs_path, chromsizes, bins, map=map_func, is_one_based=(not zero_based),
+                                    n_chunks=max_split, block_char=block_char)
+        create_cooler(cool_path, bins, iterator, metadata=metadata, assembly=assembly, ordered=True)
+    finally:
+        if nproc > 1:
+            pool.close()
+''')
+
+_reg('cooler.cli.cload.get_header', 'cooler.cli.cload',
+     'leading lines that start with the comment character are consumed as header; the stream is left at the first data line', '''
+def ref(instream, comment_char="#"):
+    header = []
+    if not comment_char:
+        raise ValueError("no comment char")
+    comment_byte = comment_char.encode()
+    read_f, peek_f = None, None
+    if hasattr(instream, "buffer"):
+        peek_f = instream.buffer.peek
+        readline_f = instream.buffer.readline
+    elif hasattr(instream, "peek"):
+        peek_f = instream.peek
+        readline_f = instream.readline
+    else:
+        raise ValueError("no peek")
+    current_peek = peek_f(1)
+    while current_peek.startswith(comment_byte):
+        line = readline_f()
+        if isinstance(line, bytes):
+            line = line.decode()
+        header.append(line.strip())
+        current_peek = peek_f(1)
+    return header, instream
+''')
+
+_reg('cooler.cli.zoomify.zoomify', 'cooler.cli.zoomify',
+     'output path, coarsest resolution from genome length / tile size, resolution-spec expansion, field specs, call of zoomify_cooler '
+     'with all base URIs, optional balancing of every level', '''
+def ref(cool_uri, nproc, chunksize, resolutions, balance, balance_args, field, legacy, base_uri, out):
+    logger = get_logger(__name__)
+    infile, _ = parse_cooler_uri(cool_uri)
+    if out is None:
+        outfile = infile.replace(".cool", ".mcool")
+    else:
+        outfile, _ = parse_cooler_uri(out)
+    if legacy:
+        n_zooms, zoom_levels = legacy_zoomify(cool_uri, outfile, nproc, chunksize, lock=lock)
+        if balance:
+            from .balance import balance as balance_cmd
+            if balance_args is None:
+                balance_args = []
+            else:
+                balance_args = shlex.split(balance_args)
+            for level, res in reversed(list(zoom_levels.items())):
+                uri = outfile + "::" + str(level)
+                if level == str(n_zooms):
+                    if "weight" in api.Cooler(uri).bins():
+                        continue
+                try:
+                    balance_cmd.main(args=[uri, *balance_args], prog_name="cooler")
+                except SystemExit as e:
+                    exit_code = e.code
+                    if exit_code is None:
+                        exit_code = 0
+                    if exit_code != 0:
+                        raise e
+    else:
+        clr = api.Cooler(cool_uri)
+        genome_length = clr.chromsizes.values.sum()
+        if clr.binsize:
+            maxres = int(ceil(genome_length / HIGLASS_TILE_DIM))
+            curres = clr.binsize
+        else:
+            bins = clr.bins()[["start", "end"]][:]
+            mean_fragsize = (bins["end"] - bins["start"]).mean()
+            maxres = int(ceil(genome_length / mean_fragsize / HIGLASS_TILE_DIM))
+            curres = 1
+        if resolutions is None:
+            resolutions = "b"
+        resolutions, rstring = [], resolutions
+        for res in [s.strip().lower() for s in rstring.split(",")]:
+            if ("n" in res or "b" in res) and maxres < curres:
+                warnings.warn("already small", stacklevel=1)
+            if res == "n":
+                r = preferred_sequence(curres, maxres, "nice")
+            elif res == "b":
+                r = preferred_sequence(curres, maxres, "binary")
+            elif res == "4dn":
+                r = [1000, 2000, *preferred_sequence(5000, maxres, "nice")]
+            elif res.endswith("n"):
+                res = int(res.split("n")[0])
+                r = preferred_sequence(res, maxres, "nice")
+            elif res.endswith("b"):
+                res = int(res.split("b")[0])
+                r = preferred_sequence(res, maxres, "binary")
+            else:
+                r = [int(res)]
+            resolutions.extend(r)
+        if len(field):
+            field_specifiers = [parse_field_param(arg, includes_colnum=False) for arg in field]
+            columns, _, dtypes, agg = zip(*field_specifiers)
+            columns = list(columns)
+            dtypes = {col: dt for col, dt in zip(columns, dtypes) if dt is not None}
+            agg = {col: f for col, f in zip(columns, agg) if f is not None}
+        else:
+            columns, dtypes, agg = ["count"], None, None
+        zoomify_cooler([cool_uri, *list(base_uri)], outfile, resolutions, chunksize, nproc=nproc, lock=lock,
+                       columns=columns, dtypes=dtypes, agg=agg)
+        if balance:
+            invoke_balance(balance_args, resolutions, outfile)
+''')
+
+_reg('cooler.create._create._set_h5opts', 'cooler.create._create',
+     'HDF5 filter options: unknown keys refused; gzip level 6 and shuffle by default', '''
+def ref(h5opts):
+    result = {}
+    if h5opts is not None:
+        result.update(h5opts)
+    available_opts = {"chunks", "maxshape", "compression", "compression_opts", "scaleoffset", "shuffle", "fletcher32",
+                      "fillvalue", "track_times"}
+    for key in result.keys():
+        if key not in available_opts:
+            raise ValueError("unknown storage option")
+    result.setdefault("compression", "gzip")
+    if result["compression"] == "gzip" and "compression_opts" not in result:
+        result["compression_opts"] = 6
+    result.setdefault("shuffle", True)
+    return result
+''')
